@@ -289,6 +289,55 @@ def run_case(rng, res, riders, i):
 
         rvars = frozenset(Variable(k, to_domain(inputs[k])) for k in reals)
         attempt("integrate-gaussian", lambda: Integrate(g, h, rvars), gref, OrderedDict((n, inputs[n]) for n in ints), must_complete=False, detail="integrand G[%s]" % spec2.label)
+        # (e') the contraction of two mixtures built directly (cnf.eager_contraction_gaussian adds the factors before reducing): every real
+        # input of the sum and a subset of the integer inputs are reduced; closed form from the dense sum of the two quadratic forms
+        if ints:
+            from funsor.cnf import Contraction
+
+            from ..dense import add_dense
+
+            dsum = add_dense(d, d2)
+            la = np.round(rng.uniform(-1, 1, size=tuple(inputs[n][0] for n in ints)), 2)
+            lb = np.round(rng.uniform(-1, 1, size=tuple(inputs[n][0] for n in ints[::-1])), 2)
+            ta = Tensor(la, OrderedDict((n, Bint[inputs[n][0]]) for n in ints))
+            tb = Tensor(lb, OrderedDict((n, Bint[inputs[n][0]]) for n in ints[::-1]))
+            I = tuple(n for n in ints if rng.random() < 0.5)
+            rest_c = OrderedDict((n, inputs[n]) for n in ints if n not in I)
+
+            def cref(env, I=I):
+                vals = []
+                for pt in itertools.product(*[range(inputs[n][0]) for n in I]):
+                    ie = {**{n: int(env[n]) for n in ints if n not in I}, **dict(zip(I, pt))}
+                    vals.append(float(la[tuple(ie[n] for n in ints)]) + float(lb[tuple(ie[n] for n in ints[::-1])]) + dsum.log_normalizer(ie))
+                return float(scipy.special.logsumexp(vals))
+
+            cvars = rvars | frozenset(Variable(n, Bint[inputs[n][0]]) for n in I)
+            attempt("contract-two-mixtures", lambda: Contraction(ops.logaddexp, ops.add, cvars, ta + g, tb + h), cref, rest_c, must_complete=False,
+                    detail="second mixture G[%s], reduced %s" % (spec2.label, sorted(v.name for v in cvars)))
+    # (e'') sums of exponentials: exp(g) summed over real inputs is the exponential of the marginal (joint.eager_reduce_exp), also for a
+    # mixture summed over integer inputs as well
+    S = subsets[int(rng.integers(len(subsets)))]
+    rest_e = OrderedDict((k, dm) for k, dm in inputs.items() if k not in S)
+    if len(S) == len(reals):
+        eref = lambda env: math.exp(d.log_normalizer({k: int(env[k]) for k in ints}))
+    else:
+        m_e = d.marginalize(S)
+        eref = lambda env, m_e=m_e: math.exp(m_e(env))
+    attempt("exp-sum", lambda S=S: g.exp().reduce(ops.add, frozenset(S)), eref, rest_e, must_complete=False, detail="exp(g) summed over %s" % (S,))
+    if ints:
+        le = np.round(rng.uniform(-1, 1, size=tuple(inputs[n][0] for n in ints)), 2)
+        te = Tensor(le, OrderedDict((n, Bint[inputs[n][0]]) for n in ints))
+        Ie = tuple(ints[: 1 + int(rng.integers(len(ints)))])
+
+        def meref(env):
+            tot = 0.0
+            for pt in itertools.product(*[range(inputs[n][0]) for n in Ie]):
+                ie = {**{n: int(env[n]) for n in ints if n not in Ie}, **dict(zip(Ie, pt))}
+                tot += math.exp(float(le[tuple(ie[n] for n in ints)]) + d.log_normalizer(ie))
+            return tot
+
+        attempt("exp-sum-mixture", lambda: (te + g).exp().reduce(ops.add, frozenset(Ie) | frozenset(reals)), meref,
+                OrderedDict((n, inputs[n]) for n in ints if n not in Ie), must_complete=False, detail="exp(logits + g) summed over %s and all reals" % (Ie,))
     # (h) too little information must raise instead of returning a number
     spec3 = random_gaussian(rng, inputs, rank=max(0, d.dim - 1 - int(rng.integers(0, 2))), param="white_vec+prec_sqrt")
     try:
